@@ -16,16 +16,30 @@ fn spec_enc(key: &[u8], xs: &[u8]) -> Vec<u8> {
     xs.iter().enumerate().map(|(n, x)| { c = (x ^ key[n % key.len()]).wrapping_add(c); c }).collect()
 }
 
-fn enc_chunked(e: &mut EncrypterHalf, data: &[u8], sizes: &[usize]) -> Vec<u8> {
+fn enc_chunked(e: &mut EncrypterHalf, data: &[u8], sizes: &[usize], typed: bool) -> Vec<u8> {
+    // `typed`: every 4-byte call goes through encrypt_server_header and every 6-byte call through
+    // encrypt_client_header (size big-endian, opcode little-endian) instead of the raw call
     let mut out = data.to_vec();
     let mut pos = 0;
-    for s in sizes { e.encrypt(&mut out[pos..pos + s]); pos += s; }
+    for s in sizes {
+        let b = &mut out[pos..pos + s];
+        if typed && *s == 4 { let r = e.encrypt_server_header(u16::from_be_bytes([b[0], b[1]]), u16::from_le_bytes([b[2], b[3]])); b.copy_from_slice(&r); }
+        else if typed && *s == 6 { let r = e.encrypt_client_header(u16::from_be_bytes([b[0], b[1]]), u32::from_le_bytes([b[2], b[3], b[4], b[5]])); b.copy_from_slice(&r); }
+        else { e.encrypt(b); }
+        pos += s;
+    }
     out
 }
-fn dec_chunked(d: &mut DecrypterHalf, data: &[u8], sizes: &[usize]) -> Vec<u8> {
+fn dec_chunked(d: &mut DecrypterHalf, data: &[u8], sizes: &[usize], typed: bool) -> Vec<u8> {
     let mut out = data.to_vec();
     let mut pos = 0;
-    for s in sizes { d.decrypt(&mut out[pos..pos + s]); pos += s; }
+    for s in sizes {
+        let b = &mut out[pos..pos + s];
+        if typed && *s == 4 { let h = d.decrypt_server_header([b[0], b[1], b[2], b[3]]); b[..2].copy_from_slice(&h.size.to_be_bytes()); b[2..].copy_from_slice(&h.opcode.to_le_bytes()); }
+        else if typed && *s == 6 { let h = d.decrypt_client_header([b[0], b[1], b[2], b[3], b[4], b[5]]); b[..2].copy_from_slice(&h.size.to_be_bytes()); b[2..].copy_from_slice(&h.opcode.to_le_bytes()); }
+        else { d.decrypt(b); }
+        pos += s;
+    }
     out
 }
 
@@ -40,16 +54,17 @@ pub fn run(ctx: &mut Ctx) {
     for (ci, len) in lens.iter().enumerate() {
         let key: [u8; 40] = match ci % 5 { 0 => [0u8; 40], 1 => [0xff; 40], _ => rng.arr() };
         let data = match ci % 7 { 0 => vec![0u8; *len], 1 => vec![0xff; *len], _ => rng.bytes(*len) };
-        let sizes = rng.partition(*len);
+        let typed = ci % 3 != 0;
+        let sizes = if ci % 3 == 1 { rng.header_partition(*len) } else { rng.partition(*len) };
         for op in [1u32, 2] {
             let (mut e, mut d) = halves(key);
             let r = catch(|| {
-                if op == 1 { let o = enc_chunked(&mut e, &data, &sizes); let s = hk::vanilla_encrypter_state(&e); (o, s) }
-                else { let o = dec_chunked(&mut d, &data, &sizes); let s = hk::vanilla_decrypter_state(&d); (o, s) }
+                if op == 1 { let o = enc_chunked(&mut e, &data, &sizes, typed); let s = hk::vanilla_encrypter_state(&e); (o, s) }
+                else { let o = dec_chunked(&mut d, &data, &sizes, typed); let s = hk::vanilla_decrypter_state(&d); (o, s) }
             });
             let sz = le16s(&sizes);
             match r {
-                Some((o, (i, p))) => ctx.case(op, if op == 1 { "enc_calls" } else { "dec_calls" }, &[&key, &data, &sz], &[&[0], &o, &[i], &[p]]),
+                Some((o, (i, p))) => ctx.case(op, if op == 1 { if typed { "enc_calls, typed helpers for 4/6-byte calls" } else { "enc_calls" } } else if typed { "dec_calls, typed helpers for 4/6-byte calls" } else { "dec_calls" }, &[&key, &data, &sz], &[&[0], &o, &[i], &[p]]),
                 None => {
                     ctx.case(op, "panic", &[&key, &data, &sz], &[&[2]]);
                     ctx.fail("panic", format!("{{\"op\":{},\"key\":\"{}\",\"data\":\"{}\",\"sizes\":{:?}}}", op, hex(&key), hex(&data), sizes));
@@ -69,8 +84,9 @@ pub fn run(ctx: &mut Ctx) {
         let key: [u8; 40] = rng.arr();
         let len = if k % 10 == 0 { rng.range(0, 20000) } else { rng.range(0, 600) } as usize;
         let data = rng.bytes(len);
-        let s1 = rng.partition(len);
-        let s2 = rng.partition(len);
+        let typed = k % 2 == 1;
+        let s1 = if k % 4 == 1 { rng.header_partition(len) } else { rng.partition(len) };
+        let s2 = if k % 8 == 3 { rng.header_partition(len) } else { rng.partition(len) };
         let use_facade = k % 3 == 0;
         let r = catch(|| {
             if use_facade {
@@ -83,13 +99,13 @@ pub fn run(ctx: &mut Ctx) {
                 (ct, pt, hk::vanilla_encrypter_state(&e), hk::vanilla_decrypter_state(&d))
             } else {
                 let (mut e, _) = halves(key); let (_, mut d) = halves(key);
-                let ct = enc_chunked(&mut e, &data, &s1);
-                let pt = dec_chunked(&mut d, &ct, &s2);
+                let ct = enc_chunked(&mut e, &data, &s1, typed);
+                let pt = dec_chunked(&mut d, &ct, &s2, typed);
                 (ct, pt, hk::vanilla_encrypter_state(&e), hk::vanilla_decrypter_state(&d))
             }
         });
         ctx.oracle_runs += 1;
-        let det = |what: &str| format!("{{\"what\":\"{}\",\"key\":\"{}\",\"data\":\"{}\",\"enc_sizes\":{:?},\"dec_sizes\":{:?},\"facade\":{}}}", what, hex(&key), hex(&data), s1, s2, use_facade);
+        let det = |what: &str| format!("{{\"what\":\"{}\",\"key\":\"{}\",\"data\":\"{}\",\"enc_sizes\":{:?},\"dec_sizes\":{:?},\"facade\":{},\"typed_helpers_for_4_and_6_byte_calls\":{}}}", what, hex(&key), hex(&data), s1, s2, use_facade, typed);
         match r {
             None => ctx.fail("panic", det("panic")),
             Some((ct, pt, se, sd)) => {
